@@ -62,6 +62,9 @@ pub fn run(seed: u64, n: usize) -> Vec<Value> {
         tries += 1;
     }
     secrets.extend(boundary.iter().cloned());
+    // secrets whose first canonical index is deep (found by search; the facts are recomputed here): the generation loop
+    // must walk that far - 23, 24, 25, 26, 27 and 33 indices
+    secrets.extend([27818u64, 6127463, 2232804, 13477281, 9914167, 515925448].iter().map(|&v| Scalar::from(v)));
     for s in &secrets {
         let mut w = [0u8; 32];
         w.copy_from_slice(&wide_bytes_of(s)[..32]);
